@@ -835,6 +835,32 @@ def case_early_answer(ctx, rseed):
                            seed=r.randint(0, 10 ** 6), tag="early", what="early_answer")
 
 
+def case_few_descriptors(ctx, rseed):
+    """A long session: 60 solve() / is_satisfiable() calls per solver convention (stdin/stdout, file in / stdout, file in /
+    file out) in a process that may open only 30 more files than it has open.  A call that closes what it opens never notices."""
+    from .. import semantic as S
+    tt.selfcheck()
+    r = ctx.rng("c20-fds", rseed)
+    with Bench() as bench:
+        reps = []
+        for conv in ("stdin", "filein", "fileout"):
+            names = [x for x in NAMES if CONV[x] == conv]
+            if names:
+                reps.append(names[0])
+        before = S.open_descriptors()
+        with S.few_descriptors_left(30):
+            for name in reps:
+                bench.install({name})
+                for i in range(60):
+                    base = [[r.choice([1, -1]) * v for v in r.sample(range(1, 7), 3)] for _ in range(4 + i % 3)]
+                    fm = make_formula({"label": "session call %d" % (i + 1), "n": 6, "base": base, "times": 1})
+                    fm.count(ctx)
+                    ctx.count("calls_with_few_descriptors_left")
+                    bridge(ctx, bench, fm, "solve" if i % 2 else "is_satisfiable", name, None, None, {"kind": "answer", "comments": "none"}, {name},
+                           seed=r.randint(0, 10 ** 6), tag="call %d of a session with 30 spare descriptors" % (i + 1), what="few_descriptors")
+        ctx.count("descriptors_open_after_the_session_minus_before", max(0, S.open_descriptors() - before))
+
+
 def subsets_for(tier, seed):
     full = (1 << len(NAMES)) - 1
     if tier == "thorough":
@@ -955,6 +981,7 @@ def workload(tier, seed):
             for form in FORMS:
                 yield "random", {"name": name, "form": form, "batch": seed * 100 + b, "count": 16 if quick else 60,
                                  "maxn": 8 if quick else 10}
+    yield "few_descriptors", {"rseed": seed}
     masks = subsets_for(tier, seed)
     step = 12 if quick else 32
     for i in range(0, len(masks), step):
